@@ -22,6 +22,9 @@ type Case struct {
 	G     model.G `json:"g"`
 	Text  string  `json:"text"`
 	Route int     `json:"route"`
+	// Poison: a Marshal that fails half-way (a collection whose last member cannot
+	// be written) precedes the calls under test; it must leave nothing behind.
+	Poison bool `json:"poison,omitempty"`
 }
 
 func genCase(t *rapid.T) Case {
@@ -34,7 +37,7 @@ func genCase(t *rapid.T) Case {
 	if err != nil {
 		panic(err)
 	}
-	return Case{G: *g, Text: text, Route: rapid.IntRange(0, int(model.NumRoutes)-1).Draw(t, "route")}
+	return Case{G: *g, Text: text, Route: rapid.IntRange(0, int(model.NumRoutes)-1).Draw(t, "route"), Poison: rapid.IntRange(0, 3).Draw(t, "poison") == 0}
 }
 
 func same(what string, want *model.G, got *model.G) error {
@@ -49,6 +52,18 @@ func prop(c Case) error {
 	t, err := model.Build(g, model.Route(c.Route))
 	if err != nil {
 		return fmt.Errorf("build: %v", err)
+	}
+	if c.Poison {
+		bad := geom.NewGeometryCollection()
+		if err := bad.Push(t, geom.NewPoint(geom.NoLayout)); err != nil {
+			return fmt.Errorf("harness: cannot build the unencodable collection: %v", err)
+		}
+		if txt, err := wkt.Marshal(bad); err == nil {
+			return fmt.Errorf("wkt.Marshal of a collection with a NoLayout member succeeded: %q", txt)
+		}
+		if txt, err := wkt.Marshal(bad, wkt.EncodeOptionWithMaxDecimalDigits(3)); err == nil {
+			return fmt.Errorf("wkt.Marshal of a collection with a NoLayout member succeeded: %q", txt)
+		}
 	}
 	// (a) the encoder's text is accepted by the library's own parser
 	text, err := wkt.Marshal(t)
@@ -128,6 +143,9 @@ func classify(c Case) ([]string, bool) {
 	if long {
 		cl = append(cl, "long-number")
 		nt = true
+	}
+	if c.Poison {
+		cl = append(cl, "after-a-failed-Marshal")
 	}
 	return cl, nt
 }
